@@ -951,7 +951,7 @@ func sanitize(s string) string {
 
 func buildEvidence(prop, tier string, seed int, hs []harnessInfo, results []*HarnessRun, stats []string, extra map[string]interface{}, nviol int, wall float64, validated int) *evidence {
 	paths, steps, obl, dis, triv, und := 0, 0, 0, 0, 0, 0
-	xc, xa, xu := 0, 0, 0
+	xc, xa, xu, retried := 0, 0, 0, 0
 	funcs := map[string]bool{}
 	intr := map[string]bool{}
 	bounds := map[string]interface{}{}
@@ -967,6 +967,7 @@ func buildEvidence(prop, tier string, seed int, hs []harnessInfo, results []*Har
 		xc += r.CrossChecked
 		xa += r.CrossAgreed
 		xu += r.CrossUnknown
+		retried += r.RetriedUnknown
 		for f := range r.Funcs {
 			if strings.Contains(f, "nsqio/nsq") && !strings.Contains(f, "Verif") && !strings.Contains(f, "verif") {
 				funcs[strings.ReplaceAll(f, "github.com/nsqio/nsq/", "")] = true
@@ -1007,6 +1008,7 @@ func buildEvidence(prop, tier string, seed int, hs []harnessInfo, results []*Har
 		"discharged_concretely":         triv,
 		"undecided":                     und,
 		"cross_checked_with_cvc5":       map[string]int{"queries": xc, "same_verdict": xa, "cvc5_unknown_or_timeout": xu},
+		"queries_decided_on_retry":      retried,
 		"harnesses":                     stats,
 		"functions_encoded":             sortedKeys(funcs),
 		"bounds":                        bounds,
@@ -1022,7 +1024,7 @@ func buildEvidence(prop, tier string, seed int, hs []harnessInfo, results []*Har
 		"environment models (intrinsics listed in coverage.intrinsics) are trusted contracts, validated by native replay of witnesses",
 		"interleavings at synchronisation-operation granularity with a bounded number of preemptions, sequential consistency",
 		"map iteration in insertion order",
-		"solver: z3 4.8.12 over QF bit-vector terms generated from go/ssa of the current /repo tree; a sample of the assertion verdicts of every harness is re-decided by cvc5 1.0 on every run (coverage.cross_checked_with_cvc5), a disagreement makes the run inconclusive",
+		"solver: z3 4.8.12 over QF bit-vector terms generated from go/ssa of the current /repo tree; a sample of the assertion verdicts of every harness is re-decided by cvc5 1.0 on every run (coverage.cross_checked_with_cvc5), a disagreement makes the run inconclusive; a query the resident z3 times out on (30 s) is retried once by z3 5.1 with 120 s (coverage.queries_decided_on_retry) before it counts as undecided",
 	}
 	return &evidence{PropertyID: prop, Tier: tier, Seed: seed, Level: "model_checking", Coverage: cov, Assumptions: as, WallS: wall, Violations: nviol}
 }
